@@ -17,6 +17,7 @@ mod ttl_ops;
 mod conn;
 mod shard_actor;
 mod sync_keys;
+mod sds_codec;
 use std::panic;
 
 pub struct Found {
@@ -55,7 +56,7 @@ fn main() {
     let res: Option<Found> = match unit.as_str() {
         "lattice" => lattice::search(&pid, &oid, seed),
         "resp_codec" => resp::search(&pid, &oid, seed),
-        "routing" => routing::search(&pid, &oid, seed),
+        "routing" | "fanout" => routing::search(&pid, &oid, seed),
         "digest" => digest::search(&pid, &oid, seed),
         // wal_files = the multi-file half of the WAL (truncate_before, recover_all_entries, entries_after): same driver, rotator battery first
         "wal_codec" | "wal_files" => wal_codec::search(&pid, &oid, seed),
@@ -70,6 +71,7 @@ fn main() {
         "conn" | "batch_collect" => conn::search(&pid, &oid, seed),
         "shard_actor" => shard_actor::search(&pid, &oid, seed),
         "sync_keys" => sync_keys::search(&pid, &oid, seed),
+        "sds_codec" => sds_codec::search(&pid, &oid, seed),
         _ => None,
     };
     match res {
